@@ -402,6 +402,14 @@ type verifC12Net struct {
 	votes    map[[4]uint64]bool // (node, slot, term, candidate)
 
 	sent, dropped, duped, delivered, blockedDrops, snaps atomic.Int64
+
+	// tripped: clause (V) or (P) of the oracle is already violated (seen on
+	// line). Two leaders of one term, or a follower that lost a log suffix it
+	// had acknowledged, drive raft into panics that would take the process -
+	// and the history - down before the oracle speaks, so from here on
+	// nothing is delivered and the run ends at the next step.
+	tripped atomic.Bool
+	votedFor map[[3]uint64]uint64 // (node, slot, term) -> candidate
 }
 
 // verifC12Promise summarises the messages a node has handed to its transport
@@ -455,6 +463,12 @@ func (n *verifC12Net) observeLocked(from, inc int, slot multiraft.SlotID, m raft
 		vk := [4]uint64{uint64(from), uint64(slot), m.Term, candidate}
 		if !n.votes[vk] {
 			n.votes[vk] = true
+			tk := [3]uint64{uint64(from), uint64(slot), m.Term}
+			if prev, ok := n.votedFor[tk]; ok && prev != candidate {
+				n.tripped.Store(true)
+			} else {
+				n.votedFor[tk] = candidate
+			}
 			n.c.hist.add(verifC12Event{Kind: "vote", Node: from, Slot: int(slot), Inc: inc, Term: m.Term, Peer: int(candidate)})
 		}
 	}
@@ -462,7 +476,7 @@ func (n *verifC12Net) observeLocked(from, inc int, slot multiraft.SlotID, m raft
 
 func verifC12NewNet(c *verifC12Cluster, seed int64, link verifC12Link) *verifC12Net {
 	n := &verifC12Net{c: c, rng: rand.New(rand.NewSource(seed)), link: link, blocked: map[[2]int]bool{}, leaders: map[[2]uint64]int{},
-		promises: map[[2]int]*verifC12Promise{}, votes: map[[4]uint64]bool{},
+		promises: map[[2]int]*verifC12Promise{}, votes: map[[4]uint64]bool{}, votedFor: map[[3]uint64]uint64{},
 		wake: make(chan struct{}, 1), done: make(chan struct{})}
 	go n.run()
 	return n
@@ -500,6 +514,9 @@ func (n *verifC12Net) send(from, inc int, batch []multiraft.Envelope) {
 			}
 		}
 		if to < 1 || to > len(n.c.nodes) { // the phantom learner
+			continue
+		}
+		if n.tripped.Load() {
 			continue
 		}
 		if n.blocked[[2]int{from, to}] {
@@ -1027,6 +1044,9 @@ func (n *verifC12Node) start() (err error) {
 			if err1 == nil && err2 == nil {
 				// the previous incarnation is closed: no MarkApplied is executing any more
 				p := n.c.net.promised(n.id, s)
+				if p.SentTerm > bs.HardState.Term || (p.AckTerm != 0 && p.AckTerm == bs.HardState.Term && last < p.AckIndex) {
+					n.c.net.tripped.Store(true) // clause (P) is violated: see tripped
+				}
 				n.c.hist.add(verifC12Event{Kind: "durable", Node: n.id, Slot: s, Inc: n.starts, Term: bs.HardState.Term, Vote: bs.HardState.Vote,
 					Last: last, Index: bs.AppliedIndex, SentTerm: p.SentTerm, AckTerm: p.AckTerm, AckIndex: p.AckIndex, Marks: n.marks[s-1].allowed()})
 				n.marks[s-1].reopened(bs.AppliedIndex)
